@@ -32,7 +32,7 @@ HookIds == {hooks[i].id : i \in 1..Len(hooks)}
 HK(h) == CHOOSE r \in {hooks[i] : i \in 1..Len(hooks)} : r.id = h
 Dst(op) == CASE op = "START_ACTIVITY" -> "RUNNING" [] op = "STOP_ACTIVITY" -> "CONFIGURED" [] op = "RESET" -> "DEPLOYED"
              [] op = "CONFIGURE" -> "CONFIGURED" [] op = "GO_ERROR" -> "ERROR" [] OTHER -> ""
-NoStep == [m |-> "", k |-> "", tx |-> ""]
+NoStep == [m |-> "", k |-> "", tx |-> "", cf |-> FALSE]   \* cf: a failed critical call was collected in this step
 NoView == [rn |-> 0, sosor |-> 0]
 NoSeen == [sosor |-> 0, eosor |-> 0, soeor |-> 0, eoeor |-> 0]
 
@@ -70,7 +70,7 @@ AwaitHere(h, m) == HK(h).am = m /\ (HK(h).tm # m \/ HK(h).aw >= HK(h).tw)
 TStep ==
   /\ Line.ev = "Step"
   /\ IF Line.phase = "start"
-       THEN /\ step' = [m |-> Line.m, k |-> Line.k, tx |-> Line.tx] /\ lastw' = -1000
+       THEN /\ step' = [m |-> Line.m, k |-> Line.k, tx |-> Line.tx, cf |-> FALSE] /\ lastw' = -1000
             /\ laterStart' = (laterStart \/ cancelled)
             /\ sawAfter' = (sawAfter \/ Line.k = "after")
             /\ nviol' = nviol
@@ -86,6 +86,8 @@ TStep ==
                  + Soft("CriticalFailureReported",
                         (\E h \in failedH : HK(h).crit /\ AwaitHere(h, Line.m) /\ Line.tx = tx) => Line.err,
                         <<Line.m, failedH>>)
+                 \* ... at whatever weight it was collected: the moment's error is the union of what its passes reported
+                 + Soft("CriticalFailureReported", (step.cf /\ step.m = Line.m) => Line.err, <<Line.m, "collected failure dropped">>)
                  \* C09: the reported error names critical hooks only
                  + Soft("NonCriticalSilent", \A i \in 1..Len(Line.named) : Line.named[i] \in HookIds => HK(Line.named[i]).crit,
                         <<Line.m, Line.named>>)
@@ -152,6 +154,7 @@ THAwaited ==
      /\ pendA' = pendA \ C
      /\ failedH' = failedH \ C
      /\ cancelled' = (cancelled \/ (step.k \in {"before", "leave"} /\ \E c \in C : HK(c).crit /\ HK(c).fails))
+     /\ step' = [step EXCEPT !.cf = @ \/ (step.m = Line.m /\ \E c \in C \cap failedH : HK(c).crit)]
      /\ nviol' = nviol
           \* collected at the declared await point, and only calls that were started and not collected before
           + Soft("Barrier", \A c \in C : HK(c).am = Line.m /\ HK(c).aw = Line.w, <<Line.m, Line.w, C>>)
@@ -161,7 +164,7 @@ THAwaited ==
           \* C09 (and C08: the call's result is collected, not dropped): the failure of a critical call that was
           \* started and has failed is reported where the call is awaited
           + Soft("CriticalFailureReported", (\E c \in C \cap failedH : HK(c).crit) => Line.errors > 0, <<Line.m, C \cap failedH, Line.errors>>)
-  /\ UNCHANGED <<scn, hooks, pred, reqi, tx, acq, step, lastw, open, cmds, laterStart, lateErr, sawAfter, inWin, winStarted, outStarted, run, runView, seen, ended, endS, endC>>
+  /\ UNCHANGED <<scn, hooks, pred, reqi, tx, acq, lastw, open, cmds, laterStart, lateErr, sawAfter, inWin, winStarted, outStarted, run, runView, seen, ended, endS, endC>>
 
 THE ==
   /\ Line.ev = "HE"
